@@ -482,15 +482,22 @@ func runC11(c *Ctx) {
 			}
 		}
 		L.Check(okGuard, "R-C11-ITER", "Buffer.Slice#end", "offset ≥ b.offset ⇒ (nil, −1)", "reading at or past the write offset does not return (nil, −1)", fn.Pos())
-		// next = -1 iff next >= offset
+		// next = -1 iff next >= offset (either one return of φ(-1, next) or two returns)
 		okLast := false
+		reached := edgesWhere(fn, tb, "le("+offI+",_)", nil, true)
+		notReached := edgesWhere(fn, tb, "le("+offI+",_)", nil, false)
+		var m1Rets, nextRets []ssa.Instruction
 		for _, r := range returnsOf(fn) {
-			if ph, isP := returnValues(r)[1].(*ssa.Phi); isP {
+			rv := returnValues(r)
+			if isConst(rv[0], "nil") {
+				continue // the (nil, -1) guard above
+			}
+			if ph, isP := rv[1].(*ssa.Phi); isP {
 				hasM1, hasNext := false, false
 				for i, e := range ph.Edges {
 					if isConst(e, "-1") {
 						pred := ph.Block().Preds[i]
-						for ed := range edgesWhere(fn, tb, "le("+offI+",_)", nil, true) {
+						for ed := range reached {
 							if ed.From == pred || ed.From.Succs[ed.Succ] == pred {
 								hasM1 = true
 							}
@@ -500,7 +507,26 @@ func runC11(c *Ctx) {
 					}
 				}
 				okLast = hasM1 && hasNext
+				continue
 			}
+			if isConst(rv[1], "-1") {
+				m1Rets = append(m1Rets, r)
+			} else if strings.HasPrefix(tb.T(rv[1]).String(), "add(") {
+				nextRets = append(nextRets, r)
+			}
+		}
+		if !okLast && len(m1Rets) > 0 && len(nextRets) > 0 {
+			// past the guard (offset < b.offset side), -1 only behind `next >= b.offset`, the real offset only behind its negation
+			guardPass := edgesWhere(fn, tb, "le("+offI+",p[1])", nil, true)
+			guardFail := edgesWhere(fn, tb, "le("+offI+",p[1])", nil, false)
+			cutFor := func(side map[Edge]bool) func(Edge) bool {
+				// the guard's own edges are not the comparison of the NEXT offset: its taken side is
+				// excluded, its fall-through side is always allowed
+				return func(e Edge) bool { return guardPass[e] || side[e] && !guardFail[e] }
+			}
+			b1, _ := reach(entryPos(fn), isAnyInstr(m1Rets), nil, cutFor(reached))
+			b2, _ := reach(entryPos(fn), isAnyInstr(nextRets), nil, cutFor(notReached))
+			okLast = b1 == nil && b2 == nil
 		}
 		L.Check(okLast, "R-C11-ITER", "Buffer.Slice#next", "next = start+sz, or −1 when that reaches the write offset", "Slice does not return next = −1 exactly when the next offset reaches b.offset", fn.Pos())
 	})
